@@ -25,14 +25,15 @@ PROPERTY_ID = "C11"
 ASSUMPTIONS = [
     "each prior draw's likelihood is -inf or finite according to a symbolic Boolean (all subsets explored by forking); "
     "finite values are arbitrary (symbolic log-domain atoms)",
-    "at least one finite draw per warm-up batch (an all-infinite batch has nothing to copy from; stated cut)",
+    "at most 2 consecutive prior batches without a single supported draw are followed (a third one is cut: stated bound); "
+    "the supported fraction of an iteration is (finite draws) / (all draws of that iteration, including batches drawn again)",
     "convergence of the final evidence to the integral over the supported region is statistical and outside the claim",
 ]
 
 
 def make_warmup_run(n, W, dynamic=False):
     def build(ctx, flags_concrete=None):
-        state = {"draw": 0, "fhat": []}
+        state = {"draw": 0, "fhat": [], "batches": []}
 
         def loglike(x):
             x = np.asarray(x, dtype=object)
@@ -46,9 +47,10 @@ def make_warmup_run(n, W, dynamic=False):
                 else:
                     nfin += 1
                     out.append(LogVal.atom(f"l{k}", 1))
-            if nfin == 0:
-                raise PathInfeasible()
-            state["fhat"].append(Fraction(nfin, x.shape[0]))
+            state["dry"] = state.get("dry", 0) + 1 if nfin == 0 else 0
+            if state["dry"] > 2:
+                raise PathInfeasible()  # stated bound on consecutive unsupported batches
+            state["batches"].append((nfin, x.shape[0]))
             return sarr(out)
 
         smp = Sampler(lambda u: u, loglike, n_dim=1, n_particles=n, ess_ratio=float(W + 2), vectorize=True, clustering=False,
@@ -58,25 +60,37 @@ def make_warmup_run(n, W, dynamic=False):
     def harness(ctx: PathCtx):
         smp, state = build(ctx)
         smp._core._initialize_fresh()
-        stub = RandomStub(Draws(ctx), max_calls=3 * W + 2)
+        stub = RandomStub(Draws(ctx), max_calls=5 * W + 4)
         from vf.props.c05 import max_model
         vv_stub = (lambda u, w: 0.25) if dynamic else rw_mod.volume_variation  # warm-up never advances: the metric value is irrelevant
         with patched(sm_mod, np=NpProxy(exact_log=True)), patched(core_mod, np=core_proxy()), numpy_import_as(core_proxy()), \
                 patched(rw_mod, np=NpProxy(exact_log=True, overrides={"max": max_model, "isfinite": lambda v: True}), volume_variation=vv_stub), \
                 patched(mutate_mod, np=NpProxy(random=stub, exact_log=True, overrides={"isinf": isinf_model})):
             for it in range(W):
-                smp.sample()
+                k0 = len(state["batches"])
+                try:
+                    smp.sample()
+                except (ValueError, FloatingPointError, ZeroDivisionError) as e:
+                    ctx.fail("warm-up-iteration-completes", f"{type(e).__name__}: {e}")
+                    return None
+                got = state["batches"][k0:]
+                state["fhat"].append(Fraction(sum(a for a, _ in got), sum(b for _, b in got)))
                 beta = smp.state._current["beta"]
                 ctx.check(f"iteration-{it + 1}-is-warm-up(beta==0)", eq(beta, 0))
         st = smp.state
         logz_hist = st._history["logz"]
         logl_hist = st._history["logl"]
         ninf = sum(1 for b in logl_hist for v in b if isinstance(v, float))
-        ctx.check("no-minus-inf-stored", z3.BoolVal(ninf == 0))
+        r0 = ctx.check("no-minus-inf-stored", z3.BoolVal(ninf == 0), detail={"stored_minus_inf": ninf, "supported_per_iteration": [str(f) for f in state["fhat"]]})
         ctx.check("one-batch-per-iteration", z3.BoolVal(len(logz_hist) == W and all(len(b) == n for b in logl_hist)))
         fh = state["fhat"]
+        if ninf:
+            return [str(f) for f in fh]
         for t in range(len(logz_hist)):
             lz = logz_hist[t]
+            if isinstance(lz, float) and math.isinf(lz):
+                ctx.fail(f"warmup-logz[{t}]-within-batch-fractions", "recorded evidence is -inf")
+                continue
             e = lz.exp() if isinstance(lz, LogVal) else SymReal.const(Fraction(math.exp(lz)) if lz != 0 else 1)
             lo, hi = min(fh[: t + 1]), max(fh[: t + 1])
             ctx.check(f"warmup-logz[{t}]-within-batch-fractions", z3.And(le(lo, e), le(e, hi)), detail=[str(f) for f in fh[: t + 1]])
@@ -92,6 +106,7 @@ def make_warmup_run(n, W, dynamic=False):
             flags.append(bool(m[f"inf{k}"]))
             k += 1
         cnt = {"i": 0}
+        batches = []
 
         def loglike(x):
             out = []
@@ -99,39 +114,48 @@ def make_warmup_run(n, W, dynamic=False):
                 j = cnt["i"]
                 cnt["i"] += 1
                 out.append(-np.inf if (j < len(flags) and flags[j]) else -0.5 * (j % 3))
+            batches.append((sum(1 for v_ in out if np.isfinite(v_)), len(out)))
             return np.array(out)
         smp = Sampler(lambda u: u, loglike, n_dim=1, n_particles=n, ess_ratio=float(W + 2), vectorize=True, clustering=False,
                       volume_variation=(0.5 if dynamic else None))
         smp._core._initialize_fresh()
         s0 = np.random.get_state()
         np.random.seed(0)
+        fh, err = [], None
         try:
-            for it in range(W):
-                smp.sample()
+            with np.errstate(all="ignore"):
+                for it in range(W):
+                    k0 = len(batches)
+                    smp.sample()
+                    got = batches[k0:]
+                    fh.append(sum(a for a, _ in got) / max(1, sum(b for _, b in got)))
+        except Exception as e:
+            err = e
         finally:
             np.random.set_state(s0)
         lz = [float(z) for z in smp.state.get_history("logz")]
-        fh = []
-        for t in range(W):
-            fl = flags[t * n:(t + 1) * n] + [False] * n
-            fh.append(1 - sum(fl[:n]) / n)
-        bad = False
-        for t in range(W):
+        bad = err is not None
+        for t in range(min(len(lz), len(fh))):
             lo, hi = min(fh[: t + 1]), max(fh[: t + 1])
-            if not (lo - 1e-12 <= math.exp(lz[t]) <= hi + 1e-12):
+            if not (math.isfinite(lz[t]) and lo - 1e-12 <= math.exp(lz[t]) <= hi + 1e-12):
                 bad = True
-        stored_inf = bool(np.any(np.isinf(smp.state.get_history("logl", flat=True))))
+        hist = smp.state.get_history("logl", flat=True)
+        stored_inf = int(np.sum(np.isinf(hist))) if len(hist) else 0
         if label == "no-minus-inf-stored":
-            bad = stored_inf
-        return {"reproduced": bool(bad), "signature": "warmup-logz:compounded" if label.startswith("warmup-logz") else f"warmup:{label}",
-                "payload": {"inf_flags": flags, "batch_fractions": fh, "logz_history": lz, "exp_logz": [math.exp(z) for z in lz]},
-                "what": f"{W} warm-up iterations of {n} draws with -inf pattern {flags}: supported fractions {fh}, "
-                        f"recorded exp(logz) = {[round(math.exp(z), 6) for z in lz]}"}
+            bad = stored_inf > 0
+        sig = "warmup-logz:compounded" if label.startswith("warmup-logz") else f"warmup:{label}"
+        if stored_inf:
+            sig = "warmup:unsupported-batch-stored"
+        return {"reproduced": bool(bad), "signature": sig,
+                "payload": {"inf_flags": flags, "iteration_fractions": fh, "logz_history": lz, "stored_minus_inf": stored_inf, "error": repr(err)},
+                "what": f"{W} warm-up iterations of {n} draws with -inf pattern {flags}: supported fractions per iteration {fh}, "
+                        f"recorded logz = {[round(z, 6) for z in lz]}, {stored_inf} particle(s) with log-likelihood -inf stored"
+                        + (f", raised {type(err).__name__}: {err}" if err is not None else "")}
 
     return Obligation(f"warmup-n{n}-W{W}{'-dynamic' if dynamic else ''}", harness, replay=replay,
                       encodes=[core_mod.SamplerCore.execute_iteration, rw_mod.Reweighter.run, mutate_mod.Mutator.run,
                                sm_mod.StateManager.compute_logw_and_logz, sm_mod.StateManager.commit_current_to_history],
-                      bounds=f"n_particles={n}, W={W} consecutive warm-up iterations, every -inf pattern with >= 1 finite draw per batch, "
+                      bounds=f"n_particles={n}, W={W} consecutive warm-up iterations, every -inf pattern (at most 2 consecutive batches without a supported draw), "
                              "all replacement index choices",
                       stubs=["np.random.rand/choice -> symbolic draws", "np.log of int ratios -> exact", "np.max -> fresh m (no fork)"],
                       theory="QF_NRA", timeout_ms=20000, max_paths=6000)
@@ -169,7 +193,7 @@ def make_warmup_resume(n, W1, W2):
             return Sampler(lambda u: u, loglike, n_dim=1, n_particles=n, ess_ratio=float(W1 + W2 + 2), vectorize=True, clustering=False,
                            output_dir=tempfile.gettempdir())
         from vf.props.c05 import max_model
-        stub = RandomStub(Draws(ctx), max_calls=3 * (W1 + W2) + 2)
+        stub = RandomStub(Draws(ctx), max_calls=5 * (W1 + W2) + 4)
         fs = FakeFS()
         path = Path(tempfile.gettempdir()) / "vf_c11" / "ps_1.state"
         with patched(sm_mod, np=NpProxy(exact_log=True)), patched(core_mod, np=core_proxy()), numpy_import_as(core_proxy()), \
